@@ -15,6 +15,12 @@ func genAll(env vh.Env, r *vh.Rand) []Case {
 	for i, n := 0, env.N(500, 10); i < n; i++ {
 		cases = append(cases, genSilCase(r.Fork()))
 	}
+	for i, n := 0, env.N(300, 10); i < n; i++ {
+		cases = append(cases, genSilNCase(r.Fork()))
+	}
+	for i, n := 0, env.N(300, 10); i < n; i++ {
+		cases = append(cases, genAPICase(r.Fork()))
+	}
 	cases = append(cases, genSyntax(env, r)...)
 	return cases
 }
